@@ -107,3 +107,15 @@ package query_context
 //@   ensures ctx.resp == nil ==> result.resp == nil
 //@   ensures ctx.respOpt != nil ==> result.respOpt != nil && fresh(result.respOpt) && result.respOpt != ctx.respOpt
 //@   ensures ctx.respOpt == nil ==> result.respOpt == nil
+
+//@ func (ctx *Context) RespOpt [C15]
+//@   requires ctx != nil
+//@   ensures result == ctx.respOpt
+//@ func (ctx *Context) ClientOpt [C15]
+//@   requires ctx != nil
+//@   ensures result == ctx.clientOpt
+//@ func (ctx *Context) UpstreamOpt [C15]
+//@   requires ctx != nil
+//@   ensures result == ctx.upstreamOpt
+//@ func (ctx *Context) InfoField
+//@   nobody
